@@ -401,6 +401,7 @@ type finding struct {
 	Key     string
 	What    string
 	Witness map[string]any
+	raw     rawFinding
 }
 
 // rawFinding is a failed oracle before its cause has been attributed.
@@ -429,6 +430,7 @@ type outcome struct {
 	formatted string
 	nStmts    int
 	nComments int
+	idemDone  bool
 }
 
 func clip(s string, n int) string {
@@ -539,6 +541,20 @@ func check(src []byte, o checkOpts) (res outcome) {
 			Witness: map[string]any{"input": string(src)}})
 		return
 	}
+	if strings.TrimSpace(f1.out) == "" {
+		// Everything the source contained was skipped as declaring nothing (e.g. only
+		// `type ()`). The scanner refuses an empty text by design, so the formatted text
+		// cannot be re-parsed; it describes the empty API, and so must the original.
+		if d0 := digest(p0.ast, o.degenerate); len(d0) > 0 {
+			add(rawFinding{
+				Oracle:  "meaning-changed",
+				Detail:  "formatted-text-empty",
+				What:    fmt.Sprintf("the formatted text is empty but the original declares something: %q", clip(d0[0].Val, 100)),
+				Witness: map[string]any{"input": string(src), "formatted": f1.out},
+			})
+		}
+		return
+	}
 	p1 := runParse([]byte(f1.out))
 	if p1.crash != nil {
 		add(crashFinding(p1.crash, "parsing the formatted text", []byte(f1.out)))
@@ -635,6 +651,7 @@ func check(src []byte, o checkOpts) (res outcome) {
 	if f2.err != nil {
 		return // reported above as formatted-text-unparsable
 	}
+	res.idemDone = true
 	if f2.out != f1.out {
 		cls, l1, l2 := idemClass(f1.out, f2.out)
 		add(rawFinding{
@@ -648,22 +665,42 @@ func check(src []byte, o checkOpts) (res outcome) {
 	return
 }
 
-// classify turns failed oracles into keyed findings (cause attribution by ablation).
+// kindOf groups the oracles into the kinds used in violation keys.
+var kindOf = map[string]string{
+	"valid-source-rejected":     "valid-source-rejected",
+	"formatted-text-unparsable": "meaning-changed",
+	"meaning-changed":           "meaning-changed",
+	"tokens-changed":            "meaning-changed",
+	"comment-lost":              "comments-altered",
+	"comment-invented":          "comments-altered",
+	"not-idempotent":            "not-idempotent",
+}
+
+// classify turns failed oracles into keyed findings: C20/<kind>/<cause>, the
+// cause found by ablation. When no known peculiarity of the input explains
+// the failure the key carries the oracle's structural detail instead, so that
+// an unexplained failure never coincides with the key of an explained one.
 func classify(src string, res outcome, o checkOpts, g *genCtx) []finding {
 	var out []finding
+	seen := map[string]bool{}
 	for _, rf := range res.raw {
 		key := rf.Key
 		if rf.Oracle != "" {
 			cause := attribute(src, rf.Oracle, o, g)
-			key = "C20/" + rf.Oracle + "/" + cause
+			key = "C20/" + kindOf[rf.Oracle] + "/" + cause
 			switch cause {
-			case "plain", "other-comment", "combination":
-				key += "/" + rf.Detail
+			case "plain", "other-comment":
+				key += "/" + rf.Oracle + ":" + rf.Detail
 			}
+			rf.Witness["oracle"] = rf.Oracle
 			rf.Witness["cause"] = cause
 			rf.Witness["detail"] = rf.Detail
 		}
-		out = append(out, finding{Key: key, What: rf.What, Witness: rf.Witness})
+		if seen[key] {
+			continue
+		}
+		seen[key] = true
+		out = append(out, finding{Key: key, What: rf.What, Witness: rf.Witness, raw: rf})
 	}
 	return out
 }
